@@ -11,10 +11,12 @@ Record obs := mkObs {
   o_undels : list (Z * Z * Z * coins);     (* id, owner, expiry, amount *)
   o_last : Z; o_dels : list Z;
   o_comp : list (Z * (bool * list Z * Z));
-  o_votes : list (Z * Z); o_prev : Z }.
+  o_votes : list (Z * Z); o_prev : Z;
+  o_tsup : coins                  (* tokens-module TokenInfo.Supply of the share tokens *) }.
 
 (* operation, result (0 ok, 1 rejected, 2 panic), auxiliary spec-level inputs
-   [number of blocks of the window in which the previous proposer really signed; power the code saw],
+   [number of blocks of the window in which the previous proposer really signed; power the code saw;
+    1 when that signing record is the blocks' own (no keeper-level vote writes in the history)],
    observation after the step (None: rejected/panicked, the cache was discarded) *)
 Definition stepobs := (op * Z * list Z * option obs)%type.
 Inductive c10_case : Type := C10 (cfg : nat) (init : obs) (steps : list stepobs).
@@ -26,7 +28,7 @@ Definition resolve (init o : obs) : obs :=
   let merged := map (fun e => match assoc (fst e) (o_nbal o) with Some cs => (fst e, cs) | None => e end) (o_nbal init)
                 ++ filter (fun e => match assoc (fst e) (o_nbal init) with Some _ => false | None => true end) (o_nbal o) in
   mkObs (o_time o) (o_height o) (o_slashed o) (o_stake o) (o_shares o) (o_ssup o) (o_mod o) (o_fee o) (o_treas o)
-        merged (o_sbal o) (o_rew o) (o_undels o) (o_last o) (o_dels o) (o_comp o) (o_votes o) (o_prev o).
+        merged (o_sbal o) (o_rew o) (o_undels o) (o_last o) (o_dels o) (o_comp o) (o_votes o) (o_prev o) (o_tsup o).
 
 Definition undel_of (e : Z * Z * Z * coins) : undel :=
   let '(id, ow, ex, am) := e in mkUndel id ow ex am.
@@ -36,7 +38,7 @@ Definition st_of_obs (o : obs) : st :=
        (cof (o_mod o)) (cof (o_fee o)) (cof (o_treas o)) (aof (o_nbal o)) (aof (o_sbal o)) (aof (o_rew o))
        (map undel_of (o_undels o)) (o_last o) (o_dels o)
        (fun a => match assoc a (o_comp o) with Some x => x | None => (false, [], 0) end)
-       (o_votes o) (o_prev o).
+       (o_votes o) (o_prev o) (cof (o_tsup o)).
 
 Fixpoint list_eqb {A} (e : A -> A -> bool) (l m : list A) : bool :=
   match l, m with [], [] => true | x :: l', y :: m' => e x y && list_eqb e l' m' | _, _ => false end.
@@ -62,7 +64,7 @@ Definition st_eq_obs (c : cfg) (s : st) (o : obs) : bool :=
   && list_eqb undel_eqb (undels s) (undels t) && (last s =? last t)
   && list_eqb Z.eqb (dels s) (dels t)
   && forallb (fun a => comp_eqb (comp s a) (comp t a)) ac
-  && votes_eqb (votes s) (votes t) && (prev s =? prev t).
+  && votes_eqb (votes s) (votes t) && (prev s =? prev t) && cmap_eqb ds (tsup s) (tsup t).
 
 (* ---------------------------------------------------------------- correspondence *)
 Definition is_slash_proposal (o : op) : bool := match o with OSlashProposal _ => true | _ => false end.
@@ -124,6 +126,12 @@ Definition ok_undel_record (p q : obs) (who : Z) (amts : coins) : bool :=
   && (o_last q =? o_last p + 1)
   && forallb (fun d => ag (o_nbal q) who d =? ag (o_nbal p) who d) ds.
 
+(* a delegator who redeems only part of his holding stays a delegator of the pool (and keeps receiving rewards) *)
+Definition ok_still_delegator (p q : obs) (who : Z) : bool :=
+  negb (zmem who (o_dels p) && existsb (fun d => 0 <? ag (o_sbal q) who d) ds) || zmem who (o_dels q).
+(* the token registry's supply record of the share tokens follows the pool record as well *)
+Definition ok_registry (q : obs) : bool := forallb (fun d => g (o_tsup q) d =? g (o_shares q) d) ds.
+
 Definition paid_exactly (p q : obs) (who : Z) (amt : cmap) : bool :=
   forallb (fun d => (ag (o_nbal q) who d =? ag (o_nbal p) who d + amt d) && (g (o_mod q) d =? g (o_mod p) d - amt d)) ds.
 
@@ -181,16 +189,29 @@ Definition signing_clause (p q : obs) (signed : Z) : list string :=
      && negb (0 <? zsum (map (fun d => val_credit p q d + del_credit p q d) ds))
   then ["signing_credited"%string] else [].
 
+(* "by its signing record in the snapshot window": what is credited may not exceed what the blocks in which the
+   previous proposer really SIGNED allow (checked when the vote store holds more than that record) *)
+Definition allocation_signed (p : obs) (signed infl d : Z) : Z :=
+  distributable p d * signed / c_snap c + (if (d =? 0) && (o_prev p =? 0) then infl * signed / c_snap c else 0).
+Definition excess_signed (p q : obs) (signed infl : Z) : Z :=
+  fold_left Z.max (map (fun d => val_credit p q d + del_credit p q d - allocation_signed p signed infl d) ds) 0.
+Definition signing_record_clause (p q : obs) (aux : list Z) (infl : Z) : list string :=
+  let signed := nth 0 aux 0 in
+  if (nth 2 aux 0 =? 1) && is_val (o_prev p) && (signed <? power_of p) && (0 <? excess_signed p q signed infl)
+  then [("credited_beyond_signing_record+" ++ z_to_string (excess_signed p q signed infl))%string] else [].
+
 (* the multistaking module account pays out only on claims (and loses the slashed part on a slash) *)
 Definition ok_module (p q : obs) : bool := forallb (fun d => g (o_mod p) d <=? g (o_mod q) d) ds.
 
 Definition step_clauses (p q : obs) (o : op) (res : Z) (aux : list Z) : list string :=
   (if ok_supply q then [] else ["supply_eq_book"%string]) ++
+  (if ok_registry p && negb (ok_registry q) then ["registry_supply"%string] else []) ++
   if res =? 0 then
     match o with
     | OUndelegate who amts =>
         (if ok_pro_rata p q who amts then [] else ["pro_rata"%string]) ++
         (if ok_undel_record p q who amts then [] else ["undel_record"%string]) ++
+        (if ok_still_delegator p q who then [] else ["delegator_dropped"%string]) ++
         (if ok_module p q then [] else ["module_outflow"%string])
     | OClaim who id => claim_clauses p q who id
     | OClaimMatured who => matured_clauses p q who
@@ -198,7 +219,9 @@ Definition step_clauses (p q : obs) (o : op) (res : Z) (aux : list Z) : list str
     | OAllocate possible infl =>
         (if possible then alloc_clauses p q infl else []) ++ (if ok_module p q then [] else ["module_outflow"%string])
     | OBegin _ _ _ possible infl =>
-        (if possible && (1 <? o_height q) then alloc_clauses p q infl ++ signing_clause p q (nth 0 aux 0) else []) ++
+        (if possible && (1 <? o_height q)
+         then alloc_clauses p q infl ++ (if nth 2 aux 0 =? 1 then signing_clause p q (nth 0 aux 0) else [])
+              ++ signing_record_clause p q aux infl else []) ++
         (if ok_module p q then [] else ["module_outflow"%string])
     | _ => if ok_module p q then [] else ["module_outflow"%string]
     end
@@ -222,7 +245,8 @@ Definition case_clauses (cfgs : list cfg) (k : c10_case) : list string :=
   match k with C10 ci init steps =>
     match nth_error cfgs ci with
     | None => ["cfg"%string]
-    | Some c => (if ok_supply c init then [] else ["supply_eq_book@init"%string]) ++ walk c init init 0 steps
+    | Some c => (if ok_supply c init then [] else ["supply_eq_book@init"%string]) ++
+                (if ok_registry c init then [] else ["registry_supply@init"%string]) ++ walk c init init 0 steps
     end end.
 
 Fixpoint violations_from (cfgs : list cfg) (n : nat) (cs : list c10_case) : list (nat * list string) :=
